@@ -357,6 +357,22 @@ func (s *Sched) ClearRunner() {
 // Wake returns the channel poked whenever a goroutine parks.
 func (s *Sched) Wake() <-chan struct{} { return s.wake }
 
+// Poke wakes the driver if it is sleeping (used when an event is scheduled from a goroutine).
+func (s *Sched) Poke() {
+	select {
+	case s.wake <- struct{}{}:
+	default:
+	}
+}
+
+// NumParked returns the number of parked goroutines.
+func (s *Sched) NumParked() int {
+	s.mu.Lock()
+	defer s.mu.Unlock()
+
+	return len(s.parked)
+}
+
 // Live returns the number of registered goroutines that have not exited.
 func (s *Sched) Live() int {
 	s.mu.Lock()
